@@ -214,6 +214,11 @@ func (r *Result) Finish(verifDir string, seed int64) int {
 	fmt.Fprintf(&out, "result property=%s obligations=%d discharged=%d violated=%d known=%d assumed=%d broken=%d exit=%d\n",
 		r.Property, len(r.Obls), nDis, nViol, nKnown, nAss, len(r.BrokenMsgs), code)
 	fmt.Print(out.String())
+	if os.Getenv("SCIONCHECK_LIST") != "" {
+		for _, o := range r.Obls {
+			fmt.Printf("OBL %s %s @%s :: %s%s\n", o.Status, o.Key, o.Pos, o.Fact, o.What)
+		}
+	}
 
 	// evidence
 	samples := []any{}
